@@ -1043,6 +1043,8 @@ func (w *world) startGet(g *getSpec) {
 // ---------------------------------------------------------------------------------------------
 // Controller.
 
+var errWalkAborted = errors.New("walk aborted by the harness")
+
 type ctlOpts struct {
 	faults     int             // max injected backend faults
 	clockSteps int             // max clock advances
@@ -1162,7 +1164,23 @@ func (w *world) runSchedule(gets []*getSpec, o ctlOpts) bool {
 		case 4:
 			o.external--
 
-			if c.Bool("ext-kind") && len(gets) > 0 {
+			extKind := c.Weighted("ext-kind", 3, 3, 2, 1)
+
+			if extKind == 2 {
+				// the caller of a Get that is under way cancels its context (a builder may take long)
+				g := gets[c.Pick("cancel-get", next)]
+				if g.cancelFn != nil {
+					g.cancelFn()
+				}
+
+				c.Tracef("[%d] caller of g%d cancels its context", s.step, g.idx)
+				c.Class("context-cancelled-while-get-runs")
+			} else if extKind == 3 {
+				// somebody walks the backend and gives up at the first entry (aborted export)
+				n, err := w.be.Walk(func([]byte, interface{}, time.Time) error { return errWalkAborted })
+				c.Tracef("[%d] external Walk aborted by its callback = (%d, %v)", s.step, n, err)
+				c.Class("external-aborted-walk")
+			} else if extKind == 1 && len(gets) > 0 {
 				k := gets[c.Pick("ext-key", len(gets))].key
 				err := w.be.Delete(bg, k)
 				if err == nil {
